@@ -48,7 +48,7 @@ pub fn write_evidence(cfg: &RunCfg, rep: &Report, findings: &Findings, wall_s: f
   }
   let mut coverage = Map::new();
   coverage.insert("evaluations".into(), json!(st.evaluations));
-  coverage.insert("distinct_nontrivial".into(), json!(st.nontrivial.len() as u64));
+  coverage.insert("distinct_nontrivial".into(), json!(st.distinct_nontrivial()));
   coverage.insert("rule".into(), json!(rep.rule));
   coverage.insert("samples".into(), Value::Array(samples));
   if st.states > 0 {
@@ -93,7 +93,7 @@ pub fn finish(cfg: &RunCfg, rep: &Report, findings: &Findings, wall_s: f64) -> i
   }
   println!(
     "[{}] tier={} seed={} evaluations={} distinct_nontrivial={} states={} discards={} wall={:.1}s",
-    rep.id, cfg.tier.name(), cfg.seed, rep.stats.evaluations, rep.stats.nontrivial.len(), rep.stats.states, rep.stats.discards, wall_s
+    rep.id, cfg.tier.name(), cfg.seed, rep.stats.evaluations, rep.stats.distinct_nontrivial(), rep.stats.states, rep.stats.discards, wall_s
   );
   if rep.violations.is_empty() {
     println!("[{}] OK: property held on everything explored", rep.id);
